@@ -191,7 +191,7 @@ def run_target(us, t, workdir, tier, log):
     """returns list[Obligation]; raises Undecided"""
     t0 = time.time()
     gb, blog, gi_cmd = build_target(us, t, workdir)
-    timeout = t.timeout or (120 if tier == 'quick' else 900)
+    timeout = t.timeout or (240 if tier == 'quick' else 1200)
     backends = [t.smt] if t.smt else [t.sat] + (['cadical'] if t.sat != 'cadical' else [])
     res = None; used = None; outs = []
     if not t.slice:
@@ -204,19 +204,21 @@ def run_target(us, t, workdir, tier, log):
             r = parse_results(out)
             if rc in (0, 10) and r:
                 res = r; used = be; break
-            if rc not in (-9, 0, 10):
-                # crash / parse error / out of memory: try the next back end
-                log('  %s/%s: %s rc=%d' % (us.name, t.id, be, rc))
+            log('  %s/%s: %s rc=%d after %.0fs%s' % (us.name, t.id, be, rc, secs, ' (timeout)' if rc == -9 else ''))
     if res is None:
-        # property slicing: one SAT call per obligation, in-process parallelism is provided by the outer pool
+        # property slicing (DESIGN 3.4): one SAT call per obligation, under a global deadline for the target
         res = []; used = backends[0] + '+sliced'
         rc, out, _ = run(cbmc_cmd(t, gb, backends[0]) + ['--show-properties', '--json-ui'], 300)
         try:
             props = [p['name'] for blk in json.loads(out) if isinstance(blk, dict) and 'properties' in blk for p in blk['properties']]
         except Exception:
             raise Undecided('%s/%s: cannot list properties for slicing\n%s' % (us.name, t.id, out[-1500:]))
-        per = t.timeout or (60 if tier == 'quick' else 600)
+        if len(props) > 1200 and not t.slice:
+            raise Undecided('%s/%s: solver timeout after %ds and %d obligations are too many to slice' % (us.name, t.id, timeout, len(props)))
+        per = 60 if tier == 'quick' else 300
+        deadline = time.time() + (timeout * 2)
         def one(pn):
+            if time.time() > deadline: return (pn, 'sliced obligation (target deadline passed)', 'UNKNOWN')
             for be in backends:
                 rc, o, s = run(cbmc_cmd(t, gb, be) + ['--property', pn], per)
                 r = [x for x in parse_results(o) if x[0] == pn]
@@ -285,6 +287,7 @@ def witness(us, t, workdir, obligation, log):
                 v = val.get('data', val.get('name'))
                 fn = st.get('sourceLocation', {}).get('function', '')
                 if lhs.startswith('__CPROVER') or lhs.startswith('return_value') or '$' in lhs and 'dynamic_object' not in lhs: continue
+                if lhs.startswith('__dfcc') or lhs.startswith('__write_set') or re.search(r'\.(is_writable|\$pad\d*|lb|ub|size)$', lhs) and 'dynamic_object' in lhs or v == 'struct': continue
                 steps.append((fn, lhs, v, val.get('binary')))
             ins = {}
             for fn, lhs, v, b in steps:
@@ -439,7 +442,8 @@ def check_property(prop, tier='quick', seed=0, meta=None, only_unit=None, only_t
     wall = time.time() - t_start
     write_evidence(prop, tier, seed, units, results, n_obl, n_dis, samples, bounded, undecided, violations, known_hits, checker_cmds,
                    per_backend, wall, meta)
-    for uerr in undecided: log('UNDECIDED: ' + uerr[:2000])
+    for uerr in undecided[:12]: log('UNDECIDED: ' + uerr[:2000])
+    if len(undecided) > 12: log('UNDECIDED: ... and %d more (see evidence file)' % (len(undecided) - 12))
     log('%s: %d obligations, %d discharged, %d violations, %d known, %d undecided, %.1fs -> exit %d' % (prop, n_obl, n_dis, len(violations), len(known_hits), len(undecided), wall, rc))
     if not keep and rc == 0:
         shutil.rmtree(workdir, ignore_errors=True)
